@@ -953,6 +953,7 @@ class VM:
                         getattr(object_constructor, "_prototype", None)
                     )
                     prototype.set("constructor", js_func)
+                    prototype.hide("constructor")
                     js_func._prototype = prototype
 
                 # Capture closure cells for free variables
